@@ -6,7 +6,7 @@ import (
 	"go/token"
 	"go/types"
 
-	"golang.org/x/tools/go/ssa"
+	"trzszlint/xssa"
 )
 
 // leaf is an origin of a value: the defining value after looking through phis,
